@@ -7,6 +7,17 @@ BASE_CMD = ("cd /repo && /venv/bin/python -m pytest -ra -q -p no:cacheprovider -
 TRUST = ("Trusted: CPython, numpy, the reference model in pmc/ref.py (exact rationals, self-tested against the "
          "documentation's worked examples), the enumerators' bounds as stated in the evidence file.")
 CHECKS = {
+ 'C07': dict(
+    technique="exhaustive enumeration of plate shapes x slice geometries x operations, differential oracle: the same operation folded over free-standing copies of the addressed wells",
+    text="6 plate-shape pairs with non-uniform wells x every slice geometry (single wells, all rectangles, stepped, lists, whole Plate) x container<->slice in 4 units and beyond capacity/content, remove, fill_to, "
+         "slice->slice over all geometry pairs, two versions of one plate under the same name, same-plate families; directly and as recipe step (~6 600 cases quick).",
+    note="Known finding (recipe fill_to on a slice fills the whole plate) is identified by an explicit model of that behaviour. Container-level correctness of the folded operation is C01/C02/C03/C11/C17's job. " + TRUST,
+    ref="DESIGN.md section 4 C07"),
+ 'C08': dict(
+    technique="explicit-state exploration over recipe programs (BFS, state = bake of the prefix); oracle in inductive form bake(p.s) == eager_apply(bake(p), s)",
+    text="Every program of <= 3 (quick) / 4 (thorough) steps over a 30-action vocabulary (~10 000 / ~300 000 programs) is baked in a fresh Recipe and compared step-wise with the eager interpreter: outcome class, key set, every object; plus 'no effect before bake'.",
+    note="Known finding (recipe fill_to on a slice) identified by an explicit model of its behaviour; extensions of failing prefixes are pruned. " + TRUST,
+    ref="DESIGN.md section 4 C08"),
  'C05': dict(
     technique="exhaustive enumeration of the solution-specification grammar; feasibility classified by an exact rational linear solve; results judged by definition against the reference model",
     text="~17 000 specifications per valuation (6 solute lists x 5 solvents incl. 3 containers x 4 feasibility levels x which-two-of-three x every concentration spelling / quantity / total unit, "
